@@ -19,7 +19,7 @@ RULES = {
   (r"Block became CallExpr|Minify\|`(done|elif|fi|for|select|w)`|Minify\|not a valid arithmetic operator|Minify\|reached EOF without matching `\{`",
    "F-empty-block: an empty `{ }` (valid in mksh and zsh) is printed as `{}` under Minify, and by FunctionNextLine when printed on its own, which re-parses as a command word and derails whatever follows"),
   (r"Minify\|`&` must be followed by an expression|BinaryCmd became LetClause", "F-let-minify: Minify keeps no separator after the last expression of a `let` clause, so a following && || | & or redirection is glued to it and re-parsed as arithmetic"),
-  (r"`for w` must be followed by", "F-for-comment: a comment between `for NAME` and `do` (no `in` list) is printed on the `for` line, swallowing `do`, under SingleLine and when the loop is printed on its own"),
+  (r"`for w` must be followed by|invalid for loop variable name", "F-for-comment: a comment between `for NAME` and `do` (no `in` list) is printed on the `for` line, swallowing `do`, under SingleLine and when the loop is printed on its own"),
   (r"invalid @ expansion operator|ParamExp\.(Exp|Repl)>.*became \" w\"", "F-bsnl-param: for a for-loop word list continued with backslash-newline, the continuation/indentation is emitted inside the ${...} operand of an item"),
   (r"Redirect\.Hdoc>", "F-bsnl-heredoc: with backslash-newline continuations between a here-document operator and a following && / | operator, the continuation lines are emitted into the here-document body"),
  ],
